@@ -42,12 +42,17 @@ def strategy():
         "mask": st.one_of(st.none(), st.integers(1, NCPU)),
         "env": st.sampled_from([None, None, "0", "1", "2", str(NCPU), str(2 * NCPU)]),
     })
-    conc = st.fixed_dictionaries({
-        "mode": st.just("conc"),
-        "backend": st.sampled_from(["threading", "loky", "multiprocessing", "sequential", "threading", "loky"]),
-        "n_jobs": st.integers(1, 4),
+    one_call = st.fixed_dictionaries({
+        "n_jobs": st.sampled_from([1, 2, 3, 4, 2, 3, 4, 9, 10, 11, 12, NCPU]),
         "n": st.integers(1, 16),
         "sleeps": st.lists(st.sampled_from([0, 1, 5, 20, 40]), min_size=1, max_size=6),
+    })
+    conc = st.fixed_dictionaries({
+        "mode": st.just("conc"),
+        "backend": st.sampled_from(["threading", "loky", "multiprocessing", "sequential", "threading", "loky", "loky"]),
+        # consecutive calls in one process: the loky executor is reused and resized between them
+        "calls": st.lists(one_call, min_size=1, max_size=3),
+        "inner_threads": st.sampled_from([None, None, 1]),
         "batch_size": st.sampled_from([1, 1, 2, "auto"]),
         "pre_dispatch": st.sampled_from(["2*n_jobs", "all", "n_jobs", 7]),
         "managed": st.booleans(),
@@ -148,56 +153,73 @@ def _parse(logpath):
 
 
 def _run_conc(spec):
+    import contextlib
+
     import joblib
-    from joblib import Parallel, delayed
+    from joblib import Parallel, delayed, parallel_config
     from vf import tasks
 
     scratch = os.environ.get("VF_SCRATCH", "/tmp")
     logpath = os.path.join(scratch, "c15-%d.log" % os.getpid())
-    if os.path.exists(logpath):
-        os.unlink(logpath)
     backend = spec["backend"]
-    n_jobs = 1 if backend == "sequential" else spec["n_jobs"]
-    kw = dict(n_jobs=n_jobs, batch_size=spec["batch_size"], pre_dispatch=spec["pre_dispatch"])
-    if backend != "sequential":
-        kw["backend"] = backend
-    sleeps = spec["sleeps"]
-    items = [delayed(tasks.rtask)(i, sleeps[i % len(sleeps)], logpath) for i in range(spec["n"])]
     me = (os.getpid(), threading.get_ident())
-    try:
-        if spec["managed"]:
-            with Parallel(**kw) as p:
-                res = p(items)
-        else:
-            res = Parallel(**kw)(items)
-        if res != [("r", i, i % 3) for i in range(spec["n"])]:
-            raise Violation("wrong results %r" % (res[:10],), signature=["results"])
-        lines = _parse(logpath)
-    finally:
+    nt = False
+    classes = ["conc", "backend=" + backend]
+    prev_n = None
+    for ci, call in enumerate(spec["calls"]):
         if os.path.exists(logpath):
             os.unlink(logpath)
-    where = "backend=%s n_jobs=%d n=%d batch_size=%r pre_dispatch=%r managed=%s sleeps=%r" % (
-        backend, n_jobs, spec["n"], spec["batch_size"], spec["pre_dispatch"], spec["managed"], sleeps)
-    open_now, high = set(), 0
-    workers = set()
-    for kind, idx, pid, tid in lines:
-        w = (int(pid), int(tid))
-        workers.add(w)
-        if kind == "S":
-            open_now.add(idx)
-            high = max(high, len(open_now))
-        else:
-            open_now.discard(idx)
-    if high > n_jobs:
-        raise Violation("%d tasks were running simultaneously with n_jobs=%d (%s)" % (high, n_jobs, where), signature=["oversubscribed", backend])
-    if len(workers) > n_jobs:
-        raise Violation("%d distinct (pid, thread) workers executed tasks with n_jobs=%d (%s)" % (len(workers), n_jobs, where),
-                        signature=["too-many-workers", backend])
-    if n_jobs == 1 and workers - {me}:
-        raise Violation("n_jobs=1 but tasks ran outside the calling thread: %r (caller %r) (%s)" % (sorted(workers), me, where),
-                        signature=["n_jobs=1-not-inline", backend])
-    nt = spec["n"] > n_jobs and any(s >= 5 for s in sleeps)
-    return {"nontrivial": nt, "classes": ["conc", "backend=" + backend, "high=%d/%d" % (high, n_jobs)]}
+        n_jobs = 1 if backend == "sequential" else call["n_jobs"]
+        n_tasks = call["n"] + (n_jobs if n_jobs > 4 else 0)     # enough tasks to fill a large pool
+        kw = dict(n_jobs=n_jobs, batch_size=spec["batch_size"], pre_dispatch=spec["pre_dispatch"])
+        ctx = contextlib.nullcontext()
+        if backend == "loky" and spec.get("inner_threads"):
+            ctx = parallel_config(backend="loky", inner_max_num_threads=spec["inner_threads"])
+        elif backend != "sequential":
+            kw["backend"] = backend
+        sleeps = call["sleeps"] if n_jobs <= 4 else [40]
+        items = [delayed(tasks.rtask)(i, sleeps[i % len(sleeps)], logpath) for i in range(n_tasks)]
+        try:
+            with ctx:
+                if spec["managed"]:
+                    with Parallel(**kw) as p:
+                        res = p(items)
+                else:
+                    res = Parallel(**kw)(items)
+            if res != [("r", i, i % 3) for i in range(n_tasks)]:
+                raise Violation("wrong results %r" % (res[:10],), signature=["results"])
+            lines = _parse(logpath)
+        finally:
+            if os.path.exists(logpath):
+                os.unlink(logpath)
+        where = "call %d/%d backend=%s n_jobs=%d (previous call: %r) n=%d inner_max_num_threads=%r batch_size=%r pre_dispatch=%r managed=%s sleeps=%r" % (
+            ci + 1, len(spec["calls"]), backend, n_jobs, prev_n, n_tasks, spec.get("inner_threads"), spec["batch_size"], spec["pre_dispatch"],
+            spec["managed"], sleeps)
+        open_now, high = set(), 0
+        workers = set()
+        for kind, idx, pid, tid in lines:
+            w = (int(pid), int(tid))
+            workers.add(w)
+            if kind == "S":
+                open_now.add(idx)
+                high = max(high, len(open_now))
+            else:
+                open_now.discard(idx)
+        if high > n_jobs:
+            raise Violation("%d tasks were running simultaneously with n_jobs=%d (%s)" % (high, n_jobs, where), signature=["oversubscribed", backend])
+        if len(workers) > n_jobs:
+            raise Violation("%d distinct (pid, thread) workers executed tasks with n_jobs=%d (%s)" % (len(workers), n_jobs, where),
+                            signature=["too-many-workers", backend])
+        if n_jobs == 1 and workers - {me}:
+            raise Violation("n_jobs=1 but tasks ran outside the calling thread: %r (caller %r) (%s)" % (sorted(workers), me, where),
+                            signature=["n_jobs=1-not-inline", backend])
+        if n_tasks > n_jobs and any(x >= 5 for x in sleeps):
+            nt = True
+        if prev_n is not None and n_jobs < prev_n and backend == "loky":
+            classes.append("loky-shrinks-n_jobs")
+        classes.append("high=%d/%d" % (high, n_jobs) if n_jobs <= 4 else "large-n_jobs")
+        prev_n = n_jobs
+    return {"nontrivial": nt, "classes": sorted(set(classes))}
 
 
 def _run_nest(spec):
